@@ -255,6 +255,27 @@ def c18(rep, tier):
             P8.check(consumed is None, inst, 'only read', 'the caller\'s %s is modified (%s): a second call with the same objects behaves differently (e.g. apply_macros '
                      'twice with the definitions extracted once)' % (p['name'], show(consumed)[:60] if consumed else ''),
                      '%s:%d' % (os.path.relpath(f['file'], repo), (consumed or {}).get('loc', f['loc'][1:])[0] if consumed else f['loc'][1]))
+    # no result depends on stack residue: scalar locals are assigned before they are read (all units, the VM included)
+    from .genrules import uninitialised_reads
+    from .props_c02 import Multi as _Multi
+    P10 = rep.rule('C18.P10', 'a scalar local that is declared without an initialiser is assigned on every path before it is read '
+                              '(its value would otherwise be whatever an earlier call left on the stack)', floor=1)
+    M10 = _Multi(facts)
+    nf10 = nv10 = 0
+    for f in facts.functions:
+        if f.get('body') is None or f['tmpl'] == 'pattern' or f['file'].endswith('lex.yy.c'):
+            continue
+        try:
+            res10 = uninitialised_reads(M10, f)
+        except AnalysisBroken:
+            continue
+        nf10 += 1
+        for v, ev in res10:
+            nv10 += 1
+            P10.violation('%s: %s' % (f['q'], v['name']), '%s is declared without a value (line %d) and read at line %d on a path that assigns nothing to it: the outcome depends on '
+                          'what ran earlier on this thread' % (v['name'], v['loc'][0], ev.e['loc'][0]), '%s:%d' % (os.path.relpath(f['file'], repo), ev.e['loc'][0]),
+                          witness={'variable': v['name'], 'read_at_line': ev.e['loc'][0]})
+    P10.ok('definite assignment', '%d function bodies analysed' % nf10, 'Compiler/src, VM/src')
     rep.extra['static_objects'] = len([g for g in facts.globals.values() if not g['static_local']])
     rep.extra['external_callees'] = len(ext)
     rep.extra['functions_scanned'] = n_fn
